@@ -68,11 +68,36 @@ def canon_ghost(g):
     return out
 
 
-def run_scenarios(ctx, scenarios, check_op, code_names, known_codes=None, kind_of=lambda sc: "generated", what="SD stack"):
+def run_scenarios(ctx, scenarios, check_op, code_names, known_codes=None, kind_of=lambda sc: "generated", what="SD stack", early=None):
+    """early: how many scenarios with an event on the tick of some timer are run a second time with that event delivered a
+    quarter tick EARLY (asyncio runs a timer up to one clock resolution before its deadline when something else wakes the
+    loop then; harness/vloop.py early_at) - the early trace is judged by the property's checker."""
     known_codes = known_codes or {}
     impl = []
+    coincide = []
     for sc in scenarios:
         impl.append(sim.run_impl(sc))
+        coincide.append({t for t, ev in sc["events"] if t > 0} & getattr(sim.run_impl, "last_armed_ticks", set()))
+    if early is None:
+        early = 40 if ctx.tier == "quick" else 1500
+    n_early = 0
+    for sc, (tr, comp, fin), ticks in zip(scenarios, impl, coincide):
+        if n_early >= early:
+            break
+        if not ticks or not comp or sc["end"] > 64 * (1 << 20):
+            continue
+        n_early += 1
+        tr2, comp2, _ = sim.run_impl(sc, early_at=ticks)
+        v2 = ctx.model.call(check_op, [sim.scenario_sexp(sc), trace_sexp(tr2)])
+        codes2 = [c for c in (sexp.loads(v2) if v2.startswith("(") else [98]) if c not in known_codes]
+        if sorted((e[0], sexp.dumps(e[1])) for e in sim.norm(tr2)) != sorted((e[0], sexp.dumps(e[1])) for e in sim.norm(tr)):
+            ctx.dist["early-run-differs-from-exact-run"] += 1
+        if codes2 or not comp2:
+            ctx.violation(f"{what}: with an event delivered a fraction of the clock resolution before a timer deadline of its tick (the timer runs in that "
+                          "iteration, loop.time() still below its deadline): " + ("; ".join(code_names.get(c, f"checker code {c}") for c in sorted(set(codes2)))
+                                                                                   or "the loop did not become idle"),
+                          dict(scenario=describe(sc), early_ticks=sorted(ticks), trace_early=sexp.dumps(sim.norm(tr2))[:8000], checker_codes=codes2))
+    ctx.notes["early_iteration_scenarios"] = ctx.notes.get("early_iteration_scenarios", 0) + n_early
     model = sim.run_model(ctx, scenarios)
     verdicts = ctx.model.batch([(check_op, [sim.scenario_sexp(sc), trace_sexp(tr)]) for sc, (tr, _, _) in zip(scenarios, impl)])
     nev = 0
